@@ -60,8 +60,9 @@ func TopologicalSort[S ~[]V, Index comparable, V any](slice S, queryIndexHandler
 		sorted = append(sorted, node.value)
 	}
 
-	for _, node := range nodes {
-		visit(node)
+	// 按输入顺序访问（而非 map 的随机遍历顺序），使结果是确定的
+	for _, item := range slice {
+		visit(nodes[queryIndexHandler(item)])
 	}
 
 	if circular || len(sorted) != len(slice) {
